@@ -81,6 +81,8 @@ def validate(frame):
     return ["eth.truncated"]
   if d.get("truncated") == "vlan":
     bad.append("vlan.truncated")
+  if "llc" in d:
+    return bad                      # 802.3 / LLC / SNAP: carried opaquely here
   if d.get("ethertype") == F.ETH_ARP:
     if "arp" not in d:
       bad.append("arp.truncated")
@@ -133,63 +135,78 @@ def validate(frame):
   return bad
 
 
-_FIELD_ORDER = ("eth.dst", "eth.src", "eth.type", "vlan0.tci", "vlan0.type", "vlan1.tci", "vlan1.type",
-                "llc.dsap", "llc.ssap", "llc.ctrl", "snap.oui", "snap.type",
-                "arp.op", "arp.sha", "arp.spa", "arp.tha", "arp.tpa",
-                "ipv4.tos", "ipv4.total_len", "ipv4.id", "ipv4.flags_frag", "ipv4.ttl", "ipv4.proto",
-                "ipv4.src", "ipv4.dst",
-                "tcp.sport", "tcp.dport", "tcp.seq", "tcp.ack", "tcp.window", "tcp.urg",
-                "udp.sport", "udp.dport", "udp.length",
-                "icmp.type", "icmp.code",
-                "ipv4.checksum", "tcp.checksum", "udp.checksum", "icmp.checksum")
+_L2_FIELDS = ("eth.dst", "eth.src", "eth.type", "vlan0.tci", "vlan0.type", "vlan1.tci", "vlan1.type",
+              "llc.dsap", "llc.ssap", "llc.ctrl", "snap.oui", "snap.type",
+              "arp.op", "arp.sha", "arp.spa", "arp.tha", "arp.tpa")
+_L4_FIELDS = ("tcp.sport", "tcp.dport", "tcp.seq", "tcp.ack", "tcp.window", "tcp.urg",
+              "udp.sport", "udp.dport", "icmp.type", "icmp.code")
+_L3_FIELDS = ("ipv4.tos", "ipv4.id", "ipv4.flags_frag", "ipv4.ttl", "ipv4.proto", "ipv4.src", "ipv4.dst")
+_LEN_FIELDS = ("udp.length", "ipv4.total_len")
+_SUM_FIELDS = ("tcp.checksum", "udp.checksum", "icmp.checksum", "ipv4.checksum")
+
+_OPT_NAMES = {0: "eol", 1: "nop", 2: "mss", 3: "ws", 4: "sackperm", 5: "sack", 8: "ts", 30: "mptcp"}
 
 
-def first_difference(expected, actual):
-  """Name the first place where two frames differ, as a stable root-cause discriminator:
-  a header field name, "tcp.options:<kind>", "ipv4.options", "<layer>.payload", "length", or None if equal.
-  Checksum fields are looked at last, so a wrong field is named rather than the checksum that follows from it."""
-  if expected == actual:
-    return None
-  de, da = F.dissect(expected), F.dissect(actual)
-  fe, fa = de["foff"], da["foff"]
-  for name in _FIELD_ORDER:
+def tcp_option_name(kind):
+  return _OPT_NAMES.get(kind, "unknown")
+
+
+def _cmp_fields(names, expected, actual, fe, fa):
+  for name in names:
     if (name in fe) != (name in fa):
       return name.split(".")[0] + ".presence"
     if name in fe:
       oe, le = fe[name]
       oa, la = fa[name]
-      if oe != oa:
-        return name.split(".")[0] + ".offset"
       if expected[oe:oe + le] != actual[oa:oa + la]:
-        if name.endswith(".checksum"):
-          continue
         return name
-  if "ipv4" in de and "ipv4" in da and de["ipv4"]["options"] != da["ipv4"]["options"]:
-    return "ipv4.options"
+  return None
+
+
+def first_difference(expected, actual):
+  """Name the place where two frames differ, as a stable root-cause discriminator: a header field name,
+  "tcp.options:<name>", "ipv4.options", "<layer>.payload[-length]", "length", or None if equal.
+  Inner layers are looked at before outer ones, and length and checksum fields last, so that the field that
+  is wrong is named rather than the lengths and checksums that follow from it."""
+  if expected == actual:
+    return None
+  de, da = F.dissect(expected), F.dissect(actual)
+  fe, fa = de["foff"], da["foff"]
+  r = _cmp_fields(_L2_FIELDS, expected, actual, fe, fa)
+  if r:
+    return r
   if "tcp" in de and "tcp" in da:
     oe, oa = bytes(de["tcp"]["options"]), bytes(da["tcp"]["options"])
     if oe != oa:
       for off, kind, ln in tcp_option_kinds(oe):
         if oe[off:off + ln] != oa[off:off + ln]:
-          return "tcp.options:%d" % kind
+          return "tcp.options:" + tcp_option_name(kind)
       return "tcp.options:extra"
+  r = _cmp_fields(_L4_FIELDS, expected, actual, fe, fa)
+  if r:
+    return r
   pe, pa = de.get("payload_off"), da.get("payload_off")
-  if pe is not None and pe == pa and expected[pe:] != actual[pa:]:
+  if pe is not None and pa is not None and expected[pe:] != actual[pa:]:
     layer = "eth"
     for l in ("icmp", "udp", "tcp", "ipv4", "arp", "snap", "llc"):
       if l in de:
         layer = l
         break
-    n = min(len(expected), len(actual))
-    if len(expected) != len(actual) and expected[pe:n] == actual[pa:n]:
+    n = min(len(expected) - pe, len(actual) - pa)
+    if len(expected) - pe != len(actual) - pa and expected[pe:pe + n] == actual[pa:pa + n]:
       return layer + ".payload-length"
     return layer + ".payload"
-  for name in _FIELD_ORDER:
-    if name.endswith(".checksum") and name in fe and name in fa:
-      oe, le = fe[name]
-      oa, la = fa[name]
-      if expected[oe:oe + le] != actual[oa:oa + la]:
-        return name
+  if "ipv4" in de and "ipv4" in da and de["ipv4"]["options"] != da["ipv4"]["options"]:
+    return "ipv4.options"
+  for names in (_L3_FIELDS, _LEN_FIELDS, _SUM_FIELDS):
+    r = _cmp_fields(names, expected, actual, fe, fa)
+    if r:
+      return r
   if len(expected) != len(actual):
     return "length"
   return "bytes"
+
+
+def byte_distance(a, b):
+  n = min(len(a), len(b))
+  return sum(1 for i in range(n) if a[i] != b[i]) + abs(len(a) - len(b))
